@@ -6,6 +6,7 @@
 //   T3 consts : named constants and literals → Gen/Consts
 //   T5 ct     : functions documented constant time → Gen/CT
 //   T6 shared : package-level state and writes → Gen/Shared
+//   T7 bytes  : guard-style byte parsers (ParseDERSignature) → executable Lean in the Outcome monad (Gen/BytesProg)
 //   T2s slice : field arithmetic of every other function (Verify, sign, parsers, loops …) → Gen/Slices
 // Every pass fails closed: anything outside its subset is an error (exit 1),
 // which ./check reports as a broken tie.
@@ -176,6 +177,10 @@ func main() {
 		add("Shared.lean", c, e)
 		c2, e2 := passSlices(pkgs)
 		add("Slices.lean", c2, e2)
+	}
+	{
+		c, e := passBytes(root)
+		add("BytesProg.lean", c, e)
 	}
 	{
 		c, e := passCT(root)
